@@ -163,8 +163,8 @@ func init() {
 	})
 
 	register(&PropSpec{
-		ID:    "C02",
-		Level: "other",
+		ID:          "C02",
+		Level:       "other",
 		Explanation: "The automaton algebra (subset construction, refinement, range splitting) computes on run-time values and is NOT decided. Decided are the construction shapes and the selection mechanisms, each a necessary condition: Thompson shape of every NFACons (LEX-1), earliest declared rule wins in pickAction (LEX-2), the runtime acts only when the transition search is exhausted (LEX-3), universe constants (LEX-4), the Build/NFAToDFA pipeline skeleton (LEX-5), accepting states of different rules are kept apart by optimize (LEX-6) and its new states are wired before they are permuted and renumbered (LEX-9), plus the table format agreement FMT-1..3.",
 		Run: func(c *Ctx) {
 			ruleLEX1(c)
@@ -190,8 +190,8 @@ func init() {
 	})
 
 	register(&PropSpec{
-		ID:    "C07",
-		Level: "other",
+		ID:          "C07",
+		Level:       "other",
 		Explanation: "Decides the mechanisms behind mode switching and action lists, each a necessary condition: the reader's push/pop arms obey a stack discipline on the instance's mode stack and _Stack has stack semantics (MODE-1); no action list can hold an interpretation-ending action (accept/discard/accumulate) before a falling-through one (push/pop), derived from which reader arms return (MODE-2); Mode.Index = position in the sorted name list with no gaps, the default mode sorts first, the writer emits the Index of the named mode and _lexerModes is positional in Index order (MODE-3); implicit last actions (MODE-4); plus the action code agreement FMT-3.",
 		Run: func(c *Ctx) {
 			ruleMODE1(c)
@@ -245,13 +245,14 @@ func init() {
 	register(&PropSpec{
 		ID:    "C06",
 		Level: "other",
-		Explanation: "Decides the binding mechanism's structural conditions: the only go/types predicate deciding a parameter match is AssignableTo(type of term i, type of parameter i) after an arity test, over all candidate methods (BIND-1); each of the seven failure conditions is tested and reported with Errorf at the method/production concerned, and success is returned only without logged errors (BIND-2); every _cast of a stack slot uses the type that slot was pushed with, never the parameter type (BIND-3); stage order, go_type spelling types as given with the qualifier \"\" exactly for the own package, every import alias written (BIND-4). " +
+		Explanation: "Decides the binding mechanism's structural conditions: the only go/types predicate deciding a parameter match is AssignableTo(type of term i, type of parameter i) after an arity test, over all candidate methods (BIND-1); each of the seven failure conditions is tested and reported with Errorf at the method/production concerned, and success is returned only without logged errors (BIND-2); every _cast of a stack slot uses the type that slot was pushed with, never the parameter type (BIND-3); stage order, go_type spelling types as given with the qualifier \"\" exactly for the own package, every import alias written (BIND-4); the types of generated helper rules are inferred to a fixed point - the store of an inferred type sets a flag and the pass repeats while it is set (BIND-5). " +
 			"NOT decided: that the output compiles for every Go type shape (unexported or internal types of other packages, type parameters, vendoring).",
 		Run: func(c *Ctx) {
 			ruleBIND1(c)
 			ruleBIND2(c)
 			ruleBIND3(c)
 			ruleBIND4(c)
+			ruleBIND5(c)
 		},
 	})
 	register(&PropSpec{
